@@ -39,6 +39,7 @@ type segment struct {
 	optional bool
 	iterator bool
 	slice    []int64 // either 0-length or 2-length
+	isField  bool    // the segment is a field access, even if the field name is empty
 	field    string
 	index    int
 }
@@ -135,7 +136,7 @@ func resolve(sel Selector, subject ipld.Node, at []string) (ipld.Node, error) {
 				return nil, newResolutionError(fmt.Sprintf("can not iterate over kind: %s", kindString(cur)), at)
 			}
 
-		case seg.Field() != "":
+		case seg.isField:
 			at = append(at, seg.Field())
 			switch {
 			case cur == nil:
